@@ -419,8 +419,8 @@ func (a *effAnalysis) findDeadLoads() {
 	// through element addresses (of the array or of the whole of it sliced); an element's filling is needed only
 	// when a needed read can be of that element
 	type tableInfo struct {
-		fills map[int64][]*ssa.Store
-		all   bool // some read's position is not constant under the bindings: every element is needed
+		fills  map[int64][]*ssa.Store
+		all    bool // some read's position is not constant under the bindings: every element is needed
 		wanted map[int64]bool
 	}
 	tables := map[*ssa.Alloc]*tableInfo{}
@@ -482,6 +482,11 @@ func (a *effAnalysis) findDeadLoads() {
 							continue
 						}
 						check(x, false)
+					case *ssa.UnOp:
+						// the whole array read as a value (to be stored as one entry of a map, say): all of it is then wanted
+						if x.Op != token.MUL || x.X != v || !whole {
+							okTable = false
+						}
 					case *ssa.DebugRef:
 					default:
 						okTable = false
@@ -494,6 +499,40 @@ func (a *effAnalysis) findDeadLoads() {
 			}
 		}
 	}
+	// local maps: a map this activation makes and fills entry by entry at constant keys, looked up and never handed
+	// on; an entry's filling is needed only when a needed lookup can be of that key
+	localMaps := map[*ssa.MakeMap][]*ssa.MapUpdate{}
+	for _, b := range a.fn.Blocks {
+		for _, ins := range b.Instrs {
+			mm, ok := ins.(*ssa.MakeMap)
+			if !ok || mm.Referrers() == nil {
+				continue
+			}
+			var ups []*ssa.MapUpdate
+			okMap := true
+			for _, ref := range *mm.Referrers() {
+				switch y := ref.(type) {
+				case *ssa.MapUpdate:
+					if kc, isK := y.Key.(*ssa.Const); y.Map != ssa.Value(mm) || !isK || kc.Value == nil {
+						okMap = false
+					} else {
+						ups = append(ups, y)
+					}
+				case *ssa.Lookup:
+					if y.X != ssa.Value(mm) {
+						okMap = false
+					}
+				case *ssa.DebugRef:
+				default:
+					okMap = false
+				}
+			}
+			if okMap && len(ups) > 0 {
+				localMaps[mm] = ups
+			}
+		}
+	}
+	wantedKeys := map[*ssa.MakeMap]map[string]bool{}
 	isFill := func(st *ssa.Store) bool {
 		ia, ok := st.Addr.(*ssa.IndexAddr)
 		if !ok {
@@ -522,6 +561,15 @@ func (a *effAnalysis) findDeadLoads() {
 				}
 				need(x.Addr)
 				need(x.Val)
+			case *ssa.MakeMap:
+				// pure: needed only when a lookup in it is
+			case *ssa.MapUpdate:
+				if mm, isLocal := x.Map.(*ssa.MakeMap); isLocal && localMaps[mm] != nil {
+					break // the filling of a local map: needed only when the entry can be looked up
+				}
+				need(x.Map)
+				need(x.Key)
+				need(x.Value)
 			case *ssa.Call:
 				if a.pureCall(x) {
 					break // a call that only computes a value: needed only when the value is
@@ -580,6 +628,34 @@ func (a *effAnalysis) findDeadLoads() {
 				}
 			}
 			continue
+		}
+		// a lookup in a local map: the entries it can yield
+		if lk, isLk := v.(*ssa.Lookup); isLk {
+			if mm, isLocal := lk.X.(*ssa.MakeMap); isLocal && localMaps[mm] != nil {
+				need(lk.Index)
+				cv := evalConstWith(lk.Index, a.fn, a.bind, 0)
+				if wantedKeys[mm] == nil {
+					wantedKeys[mm] = map[string]bool{}
+				}
+				for _, up := range localMaps[mm] {
+					kc := up.Key.(*ssa.Const).Value
+					if cv != nil && !constant.Compare(cv, token.EQL, kc) {
+						continue
+					}
+					if !wantedKeys[mm][kc.ExactString()] {
+						wantedKeys[mm][kc.ExactString()] = true
+						need(up.Value)
+					}
+				}
+				continue
+			}
+		}
+		// a whole local table read as a value
+		if ld, isLd := v.(*ssa.UnOp); isLd && ld.Op == token.MUL {
+			if al, isAl := ld.X.(*ssa.Alloc); isAl && tables[al] != nil {
+				wantElem(al, 0, true)
+				continue
+			}
 		}
 		// a read of an element of a local table
 		if ld, isLd := v.(*ssa.UnOp); isLd && ld.Op == token.MUL {
@@ -1551,6 +1627,9 @@ func (a *effAnalysis) targetsOf(v ssa.Value, live func(phi *ssa.Phi, i int) bool
 			}
 		}
 	}
+	prev := funcMapKeyConst
+	funcMapKeyConst = a.evalConst
+	defer func() { funcMapKeyConst = prev }()
 	return funcValsLive(a.e.c, v, live, 0)
 }
 
